@@ -57,6 +57,7 @@ def gen_cfg(rng, max_vertices=72, allow_other=True, trust_bias=0.7, force_mono=T
   a = tfimpl.dy(rng, -4, 4)
   omin = a if bmode in ("min", "both") else None
   omax = a + rng.choice([0.5, 1.0, 4.0]) if bmode in ("max", "both") else None
+  omin, omax = tfimpl.zero_bound(rng, omin, omax)
   return dict(sizes=sizes, units=units, monos=monos, edge=edge, trap=trap, uni=uni, mdom=mdom, rdom=rdom,
               jmono=jmono, juni=juni, omin=omin, omax=omax)
 
